@@ -400,7 +400,10 @@ func specDoc(s *specs.Spec) *OMap {
 	if len(s.Annotations) > 0 {
 		m.Add("annotations", annDoc(s.Annotations))
 	}
-	var devs []any
+	var devs any
+	if s.Devices != nil {
+		devs = []any{}
+	}
 	for i := range s.Devices {
 		d := &s.Devices[i]
 		n := om("name", d.Name)
@@ -408,7 +411,7 @@ func specDoc(s *specs.Spec) *OMap {
 			n.Add("annotations", annDoc(d.Annotations))
 		}
 		n.Add("containerEdits", editsDoc(&d.ContainerEdits))
-		devs = append(devs, n)
+		devs = append(devs.([]any), n)
 	}
 	m.Add("devices", devs)
 	if !editsEmpty(&s.ContainerEdits) {
